@@ -17,7 +17,7 @@ JOBS = {'quick': 4, 'thorough': 16}
 REQUIRED_MONITORS = ('trace_checked', 'metropolis_direct', 'acceptance_draw_observed')
 REQUIRED_CLASSES = ('types:(0,)', 'types:(1,)', 'types:(2,)', 'types:(0, 1, 2)', 'types:(0, 1)', 'budget:1', 'budget:2',
                     'budget:>=100', 'restraints:none', 'restraints:partial', 'restraints:all-fixed', 'worse-accepted',
-                    'worse-rejected', 'improved', 'proposal:translation', 'proposal:rotation', 'proposal:atom-move')
+                    'worse-rejected', 'improved', 'units:small', 'units:large', 'proposal:translation', 'proposal:rotation', 'proposal:atom-move')
 RULE = ('runs of minimize_molecules over (mobile molecule: random tree / cyclic graph 1..25 atoms) x (fixed set 1..40 points) '
         'x deformation-type subset x step budget {1,2,3,10,100,2000, random} x restraint class x seed. Every step of every run '
         'is checked. Non-trivial run: at least one accepted and one rejected proposal. distinct = distinct (n_mobile, n_fixed, '
@@ -88,12 +88,19 @@ def run_run(ctx, case):
         budget = 100
     bonds = mob.bonds_distance if nm > 1 else {}
     initial = np.array(mob.atoms_positions)
+    # length unit of the whole problem: nm, Angstrom-like (x10), micrometres (x1e-3), 1e-5 and 1e3
+    unit = 1.0 if i % 5 else float([1e-3, 1e-5, 10.0, 1e3, 1e-4][(i // 5) % 5])
+    if unit != 1.0:
+        initial = initial * unit
+        fixed = fixed * unit
+        bonds = {a: [(b, l * unit) for b, l in lst] for a, lst in bonds.items()}
+        ctx.hit('units:small' if unit < 1 else 'units:large')
     sigma = float(rng.choice([0.1, 0.5, 1.5]))
-    width = float(rng.uniform(0.1, 0.8))
+    width = float(rng.uniform(0.1, 0.8)) * unit
     seed = ctx.libseed('run', i)
     np.random.seed(seed)
     tracer = mctrace.Tracer(n_steps=budget)
-    w = {'n_mobile': nm, 'n_fixed': nf, 'types': types, 'budget': budget, 'restraints': restr[:10], 'seed': seed}
+    w = {'n_mobile': nm, 'n_fixed': nf, 'unit': unit, 'types': types, 'budget': budget, 'restraints': restr[:10], 'seed': seed}
     try:
         with tracer.recording():
             returned = gaddlemaps._backend.minimize_molecules(fixed, initial.copy(), initial.mean(axis=0), sigma, budget,
